@@ -31,6 +31,11 @@ func (pkg *LanguagePackage) ReadFrom(ch BytesChannel) error {
 		return ErrNotEnoughBytes
 	}
 
+	// The length includes the status byte.
+	if totalLength < 1 {
+		return fmt.Errorf("invalid length for language package: %d", totalLength)
+	}
+
 	status, err := ch.Byte()
 	if err != nil {
 		return ErrNotEnoughBytes
